@@ -21,7 +21,7 @@ LEVEL_TEXT = ("Clouds of 10^4-10^6 particles are stepped 1-50 times by the real 
               "and two runs must be identical.")
 LEVEL_NOTE = "Restated as bounded statistics: moments and independence only (no normality test). A 6-sigma band with 1e5 particles is +-2.7 % on the variance: false alarms at the 1e-8 level per test, factor-2/unit errors far outside."
 RULE = ("case = (D, Dz, dt, dx, dy, steps, cloud size, seed). Non-trivial: D > 0 or Dz > 0 with at least 2 steps (independence across steps observable); distinct by parameters.")
-MANDATORY = ["horizontal_variance_tests", "vertical_variance_tests", "mean_tests", "cross_covariance_tests", "lag1_tests", "neighbour_tests", "growth_tests",
+MANDATORY = ["few_particle_series_tests", "particles_in_state_1", "particles_in_state_2", "horizontal_variance_tests", "vertical_variance_tests", "mean_tests", "cross_covariance_tests", "lag1_tests", "neighbour_tests", "growth_tests",
              "zero_diffusion_deterministic", "anisotropic_grid", "rng_seeded_by_harness", "e2e_variance_tests", "horizontal_vertical_covariance_tests", "varying_metric_variance_tests", "vertical_advection_with_diffusion_tests"]
 ASSUMPTIONS = ["still water, uniform metric, no boundaries reached (grid and water column far larger than the cloud)"]
 TIMEOUT = {"quick": 900, "thorough": 3400}
@@ -101,6 +101,13 @@ def gen_cases(tier: str, seed: int) -> list[dict[str, Any]]:
             c["D"] = float(rng.uniform(0.15, 0.6)) * min(c["dx"], c["dy"]) ** 2 / (2 * c["dt"])
             c["steps"] = int(rng.integers(5, 12))
             c["n"] = min(c["n"], 10**5)
+    # very few particles followed over many steps: the variance and the independence are properties of every single particle, not of a large cloud
+    for i in range(6 if tier == "quick" else 300):
+        rng = C.rng_for(seed, 112, i)
+        dx = float(rng.choice([50.0, 800.0, 4000.0]))
+        dt = int(rng.choice([60, 600]))
+        cases.append(dict(kind="few", idx=2 * 10**5 + i, rngseed=int(seed * 104729 + i), n=[1, 2, 3][i % 3], steps=4000, dt=dt, dx=dx, dy=dx * float(rng.choice([1.0, 2.0])),
+                          D=float(rng.uniform(0.01, 0.2)) * dx * dx / (2 * dt) * 1e-3, Dz=float(10 ** rng.uniform(-5, -3)), advection=str(rng.choice(["", "EF"]))))
     # end to end: ladim.main on a still-water ROMS file, rng seeded by the harness (hook on Tracker.__init__)
     for i in range(6 if tier == "quick" else 200):
         rng = C.rng_for(seed, 111, i)
@@ -146,9 +153,50 @@ def run_e2e(case: dict[str, Any], wd: Path) -> dict[str, Any]:
     return C.result(V[:3], sit, cnt, nontrivial=True, key=str(desc), sample=dict(desc, records=len(recs)))
 
 
+def run_few(case: dict[str, Any]) -> dict[str, Any]:
+    from ladim.state import State  # noqa: PLC0415
+    from ladim.timekeeper import TimeKeeper  # noqa: PLC0415
+    from ladim.tracker import Tracker  # noqa: PLC0415
+
+    D, Dz, dt, dx, dy, steps, n = case["D"], case["Dz"], case["dt"], case["dx"], case["dy"], case["steps"], case["n"]
+    timer = TimeKeeper(start=C.T0, stop=str(tadd(C.T0, dt * (steps + 2))), dt=dt)
+    state = State()
+    modules: dict[str, Any] = dict(time=timer, state=state, grid=UGrid(dx, dy), forcing=NoForce(None, n))
+    tr = Tracker(advection=case["advection"], diffusion=D, vertdiff=Dz, modules=modules)
+    tr.rng = np.random.default_rng(case["rngseed"])
+    state.append(X=np.full(n, 100.0), Y=np.full(n, 200.0), Z=np.full(n, 5.0e6))
+    dX, dY, dZ = np.empty((steps, n)), np.empty((steps, n)), np.empty((steps, n))
+    for s in range(steps):
+        timer.update()
+        Xb, Yb, Zb = state.X.copy(), state.Y.copy(), state.Z.copy()
+        tr.update()
+        dX[s], dY[s], dZ[s] = state.X - Xb, state.Y - Yb, state.Z - Zb
+    V: list = []
+    sit = {"few_particle_series_tests": 0, f"particles_in_state_{n}": 1}
+    desc = dict(kind="few", n=n, steps=steps, D=D, Dz=Dz, dt=dt, dx=dx, dy=dy, rngseed=case["rngseed"])
+    band = KSIG * np.sqrt(2.0 / (steps - 1))
+    for name, d, s2 in (("X", dX, 2 * D * dt / dx**2), ("Y", dY, 2 * D * dt / dy**2), ("Z", dZ, 2 * Dz * dt)):
+        for k in range(n):
+            v = float(d[:, k].var(ddof=1))
+            m = float(d[:, k].mean())
+            sit["few_particle_series_tests"] += 1
+            if abs(v - s2) > band * s2 or abs(m) > KSIG * np.sqrt(s2 / steps):
+                V.append(C.viol(f"{n} particle(s) in the state, followed over {steps} steps: the {name} displacements of particle {k} have variance {v:.6g} and mean {m:.3g}; "
+                                f"configured variance per step {s2:.6g} (ratio {v / s2:.4f})", **desc))
+        for a in range(n):
+            for b_ in range(a + 1, n):
+                r = float(np.corrcoef(d[:, a], d[:, b_])[0, 1]) if d[:, a].std() > 0 and d[:, b_].std() > 0 else 0.0
+                sit["few_particle_series_tests"] += 1
+                if abs(r) > KSIG / np.sqrt(steps):
+                    V.append(C.viol(f"{n} particles in the state: the {name} displacements of particles {a} and {b_} are correlated over {steps} steps (r = {r:.4f})", **desc))
+    return C.result(V[:4], sit, {"displacements_observed": 3 * n * steps}, nontrivial=True, key=str(desc), sample=desc)
+
+
 def run_case(case: dict[str, Any], wd: Path) -> dict[str, Any]:
     if case.get("kind") == "e2e":
         return run_e2e(case, wd)
+    if case.get("kind") == "few":
+        return run_few(case)
     from ladim.state import State  # noqa: PLC0415
     from ladim.timekeeper import TimeKeeper  # noqa: PLC0415
     from ladim.tracker import Tracker  # noqa: PLC0415
